@@ -30,6 +30,7 @@ type Prog struct {
 	Funcs   map[*types.Func]*FuncSrc     // in-module product functions with bodies
 	ByName  map[string]*FuncSrc          // FullName (abbreviated) -> src
 	Dir     string
+	forPats map[types.Object]ast.Expr
 	ModPath string // module path of the analysed tree
 	DepVers map[string]string
 }
